@@ -23,6 +23,13 @@ from . import core
 NPROC = int(os.environ.get('VERIF_NPROC', '16'))
 
 
+def _raised_in_mahotas(tb) -> bool:
+    """does the exception originate in the staged mahotas sources (as opposed to the harness itself)?"""
+    import traceback as _tb
+    frames = _tb.extract_tb(tb)
+    return bool(frames) and '/mahotas/' in frames[-1].filename.replace('\\', '/') and '/harness/' not in frames[-1].filename
+
+
 def _worker(args):
     modname, chunk = args
     mod = importlib.import_module(modname)
@@ -31,6 +38,24 @@ def _worker(args):
     except core.Infra:
         raise
     except Exception:
+        pass
+    # something raised: evaluate case by case
+    return [eval_one(mod, c) for c in chunk]
+
+
+def eval_one(mod, c):
+    """evaluate one case. A call inside the documented domain that raises from the mahotas sources is a finding for
+    that case (a value turned into an exception); an exception in the harness itself is infrastructure."""
+    try:
+        return mod.evaluate([c])[0]
+    except core.Infra:
+        raise
+    except Exception as e:
+        if _raised_in_mahotas(e.__traceback__):
+            return dict(findings=[dict(kind='property', key=f'raises:{type(e).__name__}',
+                                       detail=dict(exception=repr(e)[:300],
+                                                   where=traceback.format_exc().strip().splitlines()[-6:]))],
+                        nontrivial=True, sig='raises', tags=dict(outcome='raises'))
         raise core.Infra('worker failed:\n' + traceback.format_exc())
 
 
@@ -114,7 +139,7 @@ def shrink(mod, case, key, budget=400):
         for cand in mod.shrink(cur):
             spent += 1
             try:
-                res = mod.evaluate([cand])[0]
+                res = eval_one(mod, cand)
             except Exception:
                 continue
             if any(f['key'] == key and f['kind'] == 'property' for f in res['findings']):
@@ -156,7 +181,7 @@ def run_property(modname: str, tier: str, seed: int, replay: str | None = None) 
             print(json.dumps(lean['problems'], indent=1))
             return 0 if lean['ok'] else 1
         emod = importlib.import_module(case['foundation']) if isinstance(case, dict) and case.get('foundation') else mod
-        res = emod.evaluate([case])[0]
+        res = eval_one(emod, case)
         print(json.dumps(res['findings'], indent=1, default=str))
         bad = [f for f in res['findings'] if f['kind'] == 'property']
         if bad:
@@ -213,7 +238,7 @@ def run_property(modname: str, tier: str, seed: int, replay: str | None = None) 
             continue
         case, f = min(lst, key=lambda cf: len(json.dumps(cf[0], default=str)))
         small = shrink(mod, case, key)
-        res = mod.evaluate([small])[0]
+        res = eval_one(mod, small)
         ff = [x for x in res['findings'] if x['key'] == key] or [f]
         rp = core.write_replay(pid, dict(property=pid, key=key, case=small, finding=ff[0], seed=seed, tier=tier,
                                           occurrences=len(lst), tree=core.tree_hash()))
